@@ -1221,6 +1221,15 @@ func (e *nenum) renderD(fr *nframe, x ast.Expr, depth int) string {
 			if op, isAlias := fr.ptrAlias[lname(id)]; isAlias {
 				return e.renderD(fr, op, depth+1) + "." + v.Sel.Name
 			}
+			// library constants that name a number the code otherwise writes out
+			if id.Name == "utf8" && fr.subst[lname(id)] == "" && fr.multi[lname(id)] == "" && fr.defs[lname(id)] == nil {
+				switch v.Sel.Name {
+				case "RuneSelf":
+					return "128"
+				case "UTFMax":
+					return "4"
+				}
+			}
 		}
 		return e.renderD(fr, v.X, depth) + "." + v.Sel.Name
 	case *ast.IndexExpr:
@@ -2229,6 +2238,41 @@ func (e *nenum) stmt(fr *nframe, s ast.Stmt) {
 						return
 					}
 				}
+			}
+		}
+		// a helper call with a body of its own used as a subscript on the left-hand side is computed first
+		// (`table[twin(r)] = true` reads like `t := twin(r); table[t] = true`)
+		{
+			var lhs []ast.Expr
+			for i, l := range x.Lhs {
+				ix, ok := stripParens(l).(*ast.IndexExpr)
+				if !ok {
+					continue
+				}
+				ic, ok := stripParens(ix.Index).(*ast.CallExpr)
+				if !ok {
+					continue
+				}
+				d := e.helperOf(fr, ic)
+				if d == nil || d.Type.Results == nil || len(d.Type.Results.List) != 1 || len(d.Type.Results.List[0].Names) > 1 || (len(d.Body.List) < 2 && e.closureLex[d] == nil) {
+					continue
+				}
+				*e.counter++
+				name := fmt.Sprintf("hoisted%d", *e.counter)
+				id := ast.NewIdent(name)
+				fr.multi[name] = fmt.Sprintf("$%d", *e.counter)
+				e.inline(fr, e.hoistArgs(fr, ic), d, []ast.Expr{id}, token.ASSIGN, false)
+				if lhs == nil {
+					lhs = append([]ast.Expr{}, x.Lhs...)
+				}
+				nix := *ix
+				nix.Index = id
+				lhs[i] = &nix
+			}
+			if lhs != nil {
+				cp := *x
+				cp.Lhs = lhs
+				x = &cp
 			}
 		}
 		// helper calls with a body of their own among the arguments of a call on the right-hand side are computed first
